@@ -2,6 +2,6 @@
 EXTENDS Unlikely
 MCMain   == {120, 300, 499, 500, 501, 700}
 MCMarks  == {40, 250}
-MCWheres == {"before", "after", "nested", "sibling", "between"}
+MCWheres == {"before", "after", "nested", "sibling", "between", "inline", "bare"}
 MCHows   == {"class", "id", "role"}
 ====
